@@ -549,11 +549,63 @@ def work_quartic(chunk):
     return acc
 
 
+def work_buffered(chunk):
+    """f returns its value in a length-1 array - and hands back the SAME array object on every call (a preallocated
+    result buffer), or a read-only one: the results must be bit-identical to those for a fresh array per call."""
+    import numdifftools as nd
+    acc = fw.Acc()
+    for n, method in chunk:
+        f, hess, size = quartic(n)
+        x = np.array([0.7, -1.3, 0.4, 1.1][:n])
+        buf = np.zeros(1)
+
+        def fresh(t):
+            return np.array([f(t)])
+
+        def buffered(t):
+            buf[0] = f(t)
+            return buf
+
+        def readonly(t):
+            r = np.array([f(t)])
+            r.setflags(write=False)
+            return r
+        for entry, kw in (('Hessian', {}), ('Hessdiag', dict(order=2)), ('Hessdiag', dict(order=4))):
+            if method == 'central2' and entry == 'Hessdiag' and False:
+                continue
+            res = {}
+            for name, g in (('fresh', fresh), ('buffered', buffered), ('readonly', readonly)):
+                fw.fresh_library_state()
+                try:
+                    with warnings.catch_warnings():
+                        warnings.simplefilter('ignore')
+                        with np.errstate(all='ignore'):
+                            val, info = getattr(nd, entry)(g, method=method, full_output=True, **kw)(x)
+                    res[name] = fw.obs((val, info.error_estimate, info.f_value))
+                except Exception as e:      # noqa: BLE001
+                    res[name] = ('raised', type(e).__name__, str(e)[:80])
+            for name in ('buffered', 'readonly'):
+                if name == 'buffered' and method not in REAL_STEP:
+                    continue      # (a real result buffer cannot hold the complex / bicomplex values of the complex-step methods)
+                same = res[name] == res['fresh']
+                acc.case(('outputform', n, method, entry, kw.get('order'), name), nontrivial=True, cell='output-form/%s' % name,
+                         outcome=same)
+                if not same:
+                    acc.violation('C04:%s:length-1-array-%s:%s' % (entry, name, method),
+                                  dict(kind='outputform', n=n, method=method),
+                                  '%s(f, method=%r%s)(%r), f returning a %s length-1 array: %s; with a fresh array per call: %s'
+                                  % (entry, method, ''.join(', %s=%r' % kv for kv in kw.items()), x.tolist(), name,
+                                     str(res[name])[:160], str(res['fresh'])[:160]), n)
+    fw.fresh_library_state()
+    return acc
+
+
 def run(ctx):
     its = items(ctx)
     # heavy items (large n) first so that the pool drains evenly
     its.sort(key=lambda it: -it[1])
     acc = ctx.pmap(work, its, chunk=1, tier=ctx.tier)
+    acc.merge(ctx.pmap(work_buffered, [(n, m) for n in (1, 2, 3) for m in METHODS], chunk=2))
     acc.merge(ctx.pmap(work_quartic, [(n, xk, m) for n in (1, 2, 3, 4) for xk in ('mixed', 'pos') for m in METHODS], chunk=2))
     for it in (its[0], its[len(its) // 3], its[len(its) // 2], its[-1]):
         spec, n, xk = it
@@ -595,6 +647,10 @@ def run(ctx):
 # ---------------------------------------------------------------------------------------------
 
 def replay(case):
+    if case.get('kind') == 'outputform':
+        a = work_buffered([(case['n'], case['method'])])
+        bad = [r['detail'] for k, (n, recs) in a.viol.items() for r in recs]
+        return not bad, '%r -> %s' % (case, bad or 'identical for every output form')
     if case.get('kind') == 'quartic':
         a = work_quartic([(case['n'], case['xkind'], case['method'])])
         bad = [r['detail'] for k, (n, recs) in a.viol.items() for r in recs]
